@@ -70,6 +70,9 @@ pub struct SubModel {
     pub unacked: Vec<u32>,
     /// time (ms) of the last client activity that resets the lifetime counter
     pub last_lifetime_reset_ms: u64,
+    /// set when a publish request is offered after a silence longer than the lifetime: the
+    /// subscription must already have expired, whatever is answered afterwards
+    pub must_be_expired: Option<u64>,
     pub last_request_served_ms: u64,
     pub data_msgs: u64,
     pub keepalives: u64,
@@ -294,6 +297,7 @@ impl World {
                         evictable: BTreeSet::new(),
                         unacked: Vec::new(),
                         last_lifetime_reset_ms: now,
+                        must_be_expired: None,
                         last_request_served_ms: now,
                         data_msgs: 0,
                         keepalives: 0,
@@ -564,6 +568,15 @@ impl World {
                     "unknown" | "badsub" => ctx.fault("unknown_ack"),
                     _ => {}
                 }
+                if self.outstanding.is_empty() {
+                    let now = self.now_ms();
+                    for sub in self.subs.iter_mut().filter(|s| s.alive) {
+                        let silent = now - sub.last_lifetime_reset_ms;
+                        if sub.must_be_expired.is_none() && silent >= (sub.lt as u64 + 2) * (sub.pi_ms as u64) + 3 * TICK_MS {
+                            sub.must_be_expired = Some(silent);
+                        }
+                    }
+                }
                 for _ in 0..n {
                     let acks = self.make_acks(s["ack"].as_str().unwrap_or("all"));
                     let ack_pairs: Vec<(u32, u32)> = acks.iter().map(|a| (a.subscription_id, a.sequence_number)).collect();
@@ -680,7 +693,9 @@ impl World {
                     // a publish request must have been offered at least 2 ticks ago for the verdict "late"
                     let offered = self.publish_ids.len() > 0 && self.outstanding.iter().all(|o| now >= o.sent_at_ms + 2 * TICK_MS) ;
                     let silent_for = now - sub.last_lifetime_reset_ms;
-                    if !got && offered && self.publish_count_since_reset(k) <= 1 && silent_for >= (lt + 2) * pi + 3 * TICK_MS {
+                    if let (false, true, Some(silent)) = (got, offered, sub.must_be_expired) {
+                        ctx.violate("C22", "expiry-late", "", format!("subscription (lifetime count {}, interval {} ms) was still alive when a publish request arrived after {} ms without any request, and no status change followed", lt, pi, silent));
+                    } else if !got && offered && self.publish_count_since_reset(k) <= 1 && silent_for >= (lt + 2) * pi + 3 * TICK_MS {
                         ctx.violate("C22", "expiry-late", "", format!("subscription (lifetime count {}, interval {} ms) not closed with a status change {} ms after its last activity although no publish request was available", lt, pi, silent_for));
                     } else if got {
                         let at = sub.status_change_at_ms.unwrap();
